@@ -495,17 +495,163 @@ func randomC(w *tr.W, r *rng.R, cases, big int) {
 var boundaryI = []uint64{0x8000000000000000, 0x8000000000000001, 0xffffffffffffffff, 0, 1, 0x7fffffffffffffff, 0x7ffffffffffffffe, 0xfffffffffffffffe,
 	0x80, 0x7f, 0xff, 0x100, 0xff00000000000000, 0x0100000000000000, 0x00ff000000000000, 0x8000000000000080, 0x7f80000000000000, 0xff7fffffffffffff}
 
+
+// Column shapes: every byte position independently is constant 0x00, constant 0xff, constant other or
+// varying, with at least one varying position ABOVE (more significant than) a constant one, so that
+// a pass over a constant column (all keys in one bucket, e.g. all-zero digits) is followed by a pass
+// that still has to move keys.  modes[p]: 0 = 0x00, 1 = 0xff, 2 = other constant, 3 = varying.
+func columnModes(r *rng.R, width int) []int {
+	for {
+		m := make([]int, width)
+		for p := range m {
+			m[p] = r.Intn(4)
+		}
+		// position 0 is the least significant column (integers) / the last character (strings)
+		ok := false
+		for p := 0; p < width && !ok; p++ {
+			if m[p] != 3 {
+				for q := p + 1; q < width; q++ {
+					if m[q] == 3 {
+						ok = true
+					}
+				}
+			}
+		}
+		if ok || width < 2 {
+			return m
+		}
+	}
+}
+
+func columnBytes(r *rng.R, modes []int, consts []byte, few bool) []byte {
+	b := make([]byte, len(modes))
+	for p, m := range modes {
+		switch m {
+		case 0:
+			b[p] = 0x00
+		case 1:
+			b[p] = 0xff
+		case 2:
+			b[p] = consts[p]
+		default:
+			if few {
+				b[p] = []byte{0x00, 0x01, 0x7f, 0x80, 0xff}[r.Intn(5)]
+			} else {
+				b[p] = byte(r.Intn(256))
+			}
+		}
+	}
+	return b
+}
+
+func columnU(r *rng.R, n int, modes []int) []uint64 {
+	consts := make([]byte, 8)
+	for p := range consts {
+		consts[p] = byte(r.Range(1, 254))
+	}
+	few := r.Bool()
+	vals := make([]uint64, n)
+	for i := range vals {
+		b := columnBytes(r, modes, consts, few)
+		var v uint64
+		for p := 0; p < 8; p++ {
+			v |= uint64(b[p]) << (8 * uint(p))
+		}
+		vals[i] = v
+	}
+	return vals
+}
+
+// columnS: fixed-width strings; modes[0] is the LAST character (the first LSD pass).
+func columnS(r *rng.R, n int, modes []int) []string {
+	w := len(modes)
+	consts := make([]byte, w)
+	for p := range consts {
+		consts[p] = byte(r.Range(1, 254))
+	}
+	few := r.Bool()
+	vals := make([]string, n)
+	for i := range vals {
+		b := columnBytes(r, modes, consts, few)
+		s := make([]byte, w)
+		for p := 0; p < w; p++ {
+			s[w-1-p] = b[p]
+		}
+		vals[i] = string(s)
+	}
+	return vals
+}
+
+// columnSweep: deterministic family: one constant column p (0x00, 0xff, 0x5a) with the column just
+// above it and the top column varying, everything else constant zero / random constant; short and
+// long slices (both sides of the insertion cutoff); both signednesses; the same for strings.
+func columnSweep(w *tr.W, r *rng.R, thorough bool) {
+	sizes := []int{5, 21}
+	if thorough {
+		sizes = []int{3, 9, 17, 40}
+	}
+	k := 0
+	for p := 0; p < 7; p++ {
+		for _, q := range []int{p + 1, 7} {
+			for cm := 0; cm < 3; cm++ {
+				for _, n := range sizes {
+					modes := make([]int, 8)
+					for x := range modes {
+						modes[x] = []int{0, 0, 2}[r.Intn(3)]
+					}
+					modes[p] = cm
+					modes[q] = 3
+					if p > 0 && r.Bool() {
+						modes[r.Intn(p)] = 3 // a varying column below the constant one as well
+					}
+					if !thorough && (k%2 == 1) && q == 7 && p < 6 {
+						k++
+						continue
+					}
+					head := "U"
+					if k%2 == 0 {
+						head = "I"
+					}
+					k++
+					caseU(w, head, columnU(r, n, modes))
+					if thorough {
+						caseU(w, map[string]string{"I": "U", "U": "I"}[head], columnU(r, n, modes))
+					}
+				}
+			}
+		}
+	}
+	for width := 2; width <= 4; width++ {
+		for p := 0; p < width-1; p++ {
+			for cm := 0; cm < 3; cm++ {
+				for _, n := range sizes {
+					modes := make([]int, width)
+					for x := range modes {
+						modes[x] = []int{0, 1, 2, 3}[r.Intn(4)]
+					}
+					modes[p] = cm
+					modes[p+1] = 3
+					caseS(w, columnS(r, n, modes), width)
+				}
+			}
+		}
+	}
+}
+
 func randomU(w *tr.W, r *rng.R, cases, big int) {
 	for c := 0; c < cases; c++ {
 		n := pickN(r, big)
 		vals := make([]uint64, n)
-		shape := r.Intn(10)
+		shape := r.Intn(13)
 		base := r.U64()
 		tops := []uint64{0x80, 0x00, 0x7f, 0xff, 0x01, 0x81, 0xfe}
 		top := tops[r.Intn(len(tops))]
 		second := tops[r.Intn(len(tops))]
 		pos := uint(r.Intn(8)) * 8
 		keep := uint(r.Intn(8)) // number of shared top bytes for the deep-recursion shape
+		if shape >= 10 { // column shapes (constant 0x00 / 0xff / other / varying per byte position)
+			vals = columnU(r, n, columnModes(r, 8))
+		}
 		for i := range vals {
 			switch shape {
 			case 0: // all 64-bit patterns
@@ -576,7 +722,7 @@ func randomS(w *tr.W, r *rng.R, cases, big int) {
 		n := pickN(r, big)
 		vals := make([]string, n)
 		alpha := alphas[r.Intn(len(alphas))]
-		shape := r.Intn(6)
+		shape := r.Intn(8)
 		prefix := randBytes(r, r.Range(0, 40), alpha)
 		width := r.Range(0, 6)
 		lsdW := -1
@@ -600,6 +746,11 @@ func randomS(w *tr.W, r *rng.R, cases, big int) {
 		}
 		if lsdW < 0 && r.Chance(1, 6) { // outside the domain of LSDString: width below / above the shortest string
 			lsdW = r.Range(0, 3)
+		}
+		if shape >= 6 { // column shapes: fixed width, each position constant 0x00 / 0xff / other or varying
+			width = r.Range(2, 6)
+			vals = columnS(r, n, columnModes(r, width))
+			lsdW = width
 		}
 		caseS(w, vals, lsdW)
 	}
@@ -639,6 +790,7 @@ func main() {
 			exhaustiveU(w, "U", 4, iv)
 			exhaustiveS(w, 5, sv, -1)
 			exhaustiveS(w, 4, fv, 2)
+			columnSweep(w, r, true)
 		} else {
 			exhaustiveC(w, r, "C", 7, []int{-1, 0, 1})
 			for _, h := range cmpHeads[1:] {
@@ -648,6 +800,7 @@ func main() {
 			exhaustiveU(w, "U", 3, iv[1:])
 			exhaustiveS(w, 4, sv, -1)
 			exhaustiveS(w, 3, fv, 2)
+			columnSweep(w, r, false)
 		}
 	case "random":
 		r := rng.FromEnv(707)
